@@ -64,6 +64,8 @@ func mkDoc(list []int, syms []sym, rdns bool, cleanFirst ...bool) *result.Result
 			h.IPAddress = append(net.IP{}, ip...)
 			h.RTT = 1.25 + float64(i)
 			h.Reachable = true
+			// (the deprecated per-hop fields too: a redacted hop keeps its TTL and nothing else)
+			h.Port, h.ICMPType, h.ICMPCode = uint16(33434+i), 11, 1
 			if rdns {
 				h.ReverseDns = []string{"name-of-" + ip.String() + "."}
 			}
